@@ -470,6 +470,8 @@ def where_differs(want, got, path='') -> str:
         return 'parse-error:' + ERR_NAMES.get(got[1], str(got[1]))
     if len(want) != len(got):
         return 'child-count'
+    if want != got and sorted(map(repr, want)) == sorted(map(repr, got)):
+        return 'child-order'
     for a, b in zip(want, got):
         if a[0] != b[0]:
             return 'node-kind'
@@ -526,6 +528,18 @@ def culprit_all(doc) -> list[str]:
 def culprit(doc) -> str:
     """Violation key suffix, computed on the shrunk document."""
     return ','.join(culprit_all(doc)[:3]) or 'plain'
+
+
+STRUCTURAL = ('child-count', 'child-order', 'node-kind', 'writer-raised')
+
+
+def fail_key(kind: str, small, cls: str) -> str:
+    """Violation key: the writer path, then either the structural difference or (for differences in a name/value
+    and for parse errors) which field of which node kind carries which class of character in the shrunk tree."""
+    if cls.startswith(STRUCTURAL):
+        return f'{kind}:structure:{cls}'
+    c = culprit(small)
+    return f'{kind}:{c}' if c != 'plain' else f'{kind}:plain:{cls}'
 
 
 def roundtrip_fails(doc, opts, writer: str = 'serialise'):
@@ -641,8 +655,8 @@ def search(ck: Ck) -> None:
                     if not may_shrink('roundtrip', doc):
                         continue
                     small = shrink_doc(doc, lambda d, o=opts: bool(roundtrip_fails(d, o)))
-                    key = 'roundtrip:' + culprit(small)
-                    report(key, f'parse(serialise(t)) != t ({roundtrip_fails(small, opts)})', small, opts,
+                    cls = roundtrip_fails(small, opts)
+                    report(fail_key('roundtrip', small, cls), f'parse(serialise(t)) != t ({cls})', small, opts,
                            {'text': impl_serialise(small, opts)})
                     continue
                 if ref_text is None:
@@ -677,8 +691,14 @@ def search(ck: Ck) -> None:
                 o2 = rng.choice(OPTS_WS)
                 got = impl_parse(kv.serialise(**o2))
                 if got != ('ok', [doc[0]]) and may_shrink('roundtrip-named-node', doc):
-                    small = shrink_doc(doc[:1], lambda d, o=o2: bool(d) and impl_parse(build(d[0]).serialise(**o)) != ('ok', [d[0]]))
-                    report('roundtrip-named-node:' + culprit(small), 'parse(node.serialise()) != [node]', small, o2,
+                    def named_fails(d, o=o2):
+                        if len(d) != 1:
+                            return ''
+                        g = impl_parse(build(d[0]).serialise(**o))
+                        return where_differs(d, g[1] if g[0] == 'ok' else g)
+                    small = shrink_doc(doc[:1], lambda d: bool(named_fails(d)))
+                    cls = named_fails(small)
+                    report(fail_key('roundtrip-named-node', small, cls), f'parse(node.serialise()) != [node] ({cls})', small, o2,
                            {'named': True})
                 if snapshot(kv) != doc[0]:
                     report('serialise-mutates-tree', 'the tree differs after serialise()', doc[:1], o2)
@@ -687,7 +707,8 @@ def search(ck: Ck) -> None:
             d = roundtrip_fails(doc, {}, 'export')
             if d and may_shrink('export-roundtrip', doc):
                 small = shrink_doc(doc, lambda dd: bool(roundtrip_fails(dd, {}, 'export')))
-                report('export-roundtrip:' + culprit(small), f'parse("".join(t.export())) != t ({d})', small, {},
+                cls = roundtrip_fails(small, {}, 'export')
+                report(fail_key('export-roundtrip', small, cls), f'parse("".join(t.export())) != t ({cls})', small, {},
                        {'writer': 'export'})
             if identity_walk(root) != before:
                 report('export-mutates-tree', 'the tree differs after export()', doc, {})
@@ -748,14 +769,17 @@ def run(ck: Ck) -> None:
         corr_parse(ck)
     search(ck)
     keys = {v['key'] for v in ck.violations}
-    if any(k.startswith('roundtrip') and 'block-name' in k for k in keys):
-        ck.explain('instance:block_head_lexes')
-        ck.explain('instance:cfg_ok_and_esc_ok')
-    if any(k.startswith('roundtrip') and 'leaf-' in k for k in keys):
-        ck.explain('instance:leaf_lexes')
-        ck.explain('instance:cfg_ok_and_esc_ok')
-        ck.explain('instance:escape_table')
-        ck.explain('instance:every_escape_written')
+    # A failed obligation is explained by a concrete failing input on the same path:
+    #  - a round-trip failure through serialise() explains the serialise-side template / escape-table obligations;
+    #  - an export() round-trip failure explains the export census obligation;
+    #  - an observed mutation explains the store / mutating-call census.
+    # A translator that failed closed and a correspondence disagreement are never explained away: they mean the
+    # model no longer describes the source, whatever else was found.
+    if any(k.startswith(('roundtrip:', 'roundtrip-named-node:')) for k in keys):
+        for pre in ('instance:block_head_lexes', 'instance:block_tail_lexes', 'instance:leaf_lexes',
+                    'instance:child_indent', 'instance:root_child_indent', 'instance:cfg_ok_and_esc_ok',
+                    'instance:escape_table', 'instance:every_escape_written'):
+            ck.explain(pre)
     if any(k.startswith('export-roundtrip') for k in keys):
         ck.explain('instance:export_yields_have_no_raw_field')
     if 'serialise-mutates-tree' in keys or 'export-mutates-tree' in keys:
